@@ -152,6 +152,14 @@ def cases(ctx):
              more=[("ca1.yaml", CA1), ("sub/ca2.yaml", CA2)])
         pair(dict(copy.deepcopy(base), issuer="ca1"), dict(copy.deepcopy(base), issuer="ca1"), "equal", "%s: same issuer, another file name" % bn,
              more=[("ca1.yaml", CA1)], pb="deep/er/b.json")
+    # a binary attribute value (`#` + hex) and the text that happens to spell its base64 form are different certificates
+    import base64
+    for hx in ("0c0441424344", "040441424344", "1e0400410042"):       # six octets each: the base64 form has no padding
+        b64txt = base64.b64encode(bytes.fromhex(hx)).decode()
+        A = {"version": 1, "subject": "CN=#%s, O=Org" % hx, "serialNumber": 81}
+        B = {"version": 1, "subject": "CN=%s, O=Org" % b64txt, "serialNumber": 81}
+        pair(A, B, "edit", "binary subject value #%s -> text %s" % (hx, b64txt))
+        pair(A, copy.deepcopy(A), "equal", "binary subject value #%s: another file name" % hx, pb="z/b.yml")
     # seeded double edits (thorough): two single-field edits applied together, judged by the same rule
     if not ctx.quick:
         r = random.Random(ctx.seed)
